@@ -311,8 +311,17 @@ fn hook_before_lock(mutex: *const (), probe: unsafe fn(*const ()) -> bool) {
     point("lock");
 }
 
-fn hook_sync_point(kind: u32, _addr: *const ()) {
+fn hook_sync_point(kind: u32, addr: *const ()) {
     if current().is_none() {
+        return;
+    }
+    if kind & 0xff == a10::verif::SYNC_SPIN_WAIT {
+        // a10 waits in a loop for the kernel to change this word: the thread is disabled until it
+        // does (a spinning thread must not be the default choice forever). If nobody can change it
+        // the wait is forced to end and the loop runs once more (a10 bounds it by time).
+        let word = addr as usize;
+        let v0 = unsafe { (*(word as *const std::sync::atomic::AtomicU32)).load(std::sync::atomic::Ordering::SeqCst) };
+        block_until(Box::new(move || unsafe { (*(word as *const std::sync::atomic::AtomicU32)).load(std::sync::atomic::Ordering::SeqCst) } != v0), false, "waiting for the kernel thread to consume submissions");
         return;
     }
     let what = match kind & 0xff {
